@@ -75,13 +75,25 @@ def handler_env(S, meth, names=None, cls=CLS):
     tree.methods["generateImpliedEndTags"] = implied
     parser.methods["parseRCDataRawtext"] = lambda I, a, k: ops.items.append(("rawtext", a[0], a[1]))
     # the current insertion mode's processEndTag for implied end tags (self.parser.phase is this object)
+    if cls == "TextPhase":
+        parser.fields["originalPhase"] = parser.fields["phases"].entries["inBody"][0]
+    if cls == "InTableTextPhase":
+        me.fields["characterTokens"] = S.list([])
+        token_data = S.one_of("\u0000", lambda: S.str("token.data"))
     if meth == "startTagSelect":
         # also reached by delegation from the table modes: the current insertion mode need not be "in body"
         k = S.one_of("inBody", "inTable", "inCaption", "inColumnGroup", "inTableBody", "inRow", "inCell", "inSelect")
         parser.fields["phase"] = parser.fields["phases"].entries[k][0]
         me.fields["ghost_mode"] = k
     tname = S.one_of(*names) if names else S.str("token.name")
-    token = S.dict({"type": 4 if meth.startswith("endTag") else 3, "name": tname, "data": S.symdict([(S.str("attr"), S.str("value"))]),
+    data = S.symdict([(S.str("attr"), S.str("value"))])
+    if cls == "InTableTextPhase" and meth == "processCharacters":
+        data = token_data
+    if cls == "TextPhase" and meth == "processCharacters":
+        data = S.str("token.data")
+    if cls == "AfterBodyPhase" and meth == "processSpaceCharacters":
+        data = S.str("token.data")
+    token = S.dict({"type": 4 if meth.startswith("endTag") else 3, "name": tname, "data": data,
                     "selfClosing": S.bool("selfClosing"), "selfClosingAcknowledged": False})
     return dict(self=me, token=token)
 
@@ -914,3 +926,52 @@ BEFORE_HEAD = [
 
 for _m, _names, _fn in BEFORE_HEAD:
     globals()["BeforeHead_" + _m] = _mk(_m, _names, _fn, "BeforeHeadPhase")
+
+
+# ------------------------------------------------------------------------------------------- "text" mode
+# --- character tokens: insert
+def spec_text_chars(old, self, token, result):
+    return result is None and ops_are(self, [("text", token["data"])])
+
+
+# --- any end tag: pop the current node; back to the original insertion mode
+def spec_text_end(old, self, token, result):
+    return (result is None and ops_are(self, []) and grew_by(old, self, -1)
+            and same_object(self.parser.phase, old.self.parser.originalPhase))
+
+
+TEXT = [
+    ("processCharacters", None, spec_text_chars),
+    ("endTagOther", None, spec_text_end),
+    ("endTagScript", ["script"], spec_text_end),
+]
+
+for _m, _names, _fn in TEXT:
+    globals()["Text_" + _m] = _mk(_m, _names, _fn, "TextPhase")
+
+
+# ------------------------------------------------------------------------------------------- "in table text" mode
+# --- anything but a character token: flush the pending table character tokens, back to the original mode, reprocess
+def spec_tt_flush_and_reprocess(old, self, token, result):
+    return (same_object(result, token) and ops_are(self, [("call", "flushCharacters", None)])
+            and same_object(self.parser.phase, old.self.originalPhase))
+
+
+# --- character tokens: U+0000 is ignored (parse error), anything else joins the pending table character tokens
+def spec_tt_chars(old, self, token, result):
+    pending = self.characterTokens
+    if token["data"] == "\u0000":
+        return result is None and len(pending) == len(old.self.characterTokens)
+    return (result is None and len(pending) == len(old.self.characterTokens) + 1
+            and same_object(pending[len(pending) - 1], token))
+
+
+IN_TABLE_TEXT = [
+    ("processStartTag", None, spec_tt_flush_and_reprocess),
+    ("processEndTag", None, spec_tt_flush_and_reprocess),
+    ("processComment", None, spec_tt_flush_and_reprocess),
+    ("processCharacters", None, spec_tt_chars),
+]
+
+for _m, _names, _fn in IN_TABLE_TEXT:
+    globals()["InTableText_" + _m] = _mk(_m, _names, _fn, "InTableTextPhase")
